@@ -22,6 +22,11 @@ pub const FILLERS: &[&str] = &[
     // self-closing syntax on elements that are not void (inline SVG, custom elements): one token, no end tag follows
     "<svg:path d=\"M0 0\"/>",
     "<x-foo/>",
+    // raw-text elements whose end tag has white space after the name, and the legacy script guard that writes an inner
+    // script (escaped / double-escaped script data): what follows them must still be seen as markup
+    "<title>t</title\n>",
+    "<textarea>x</textarea >",
+    "<script><!--\ndocument.write('<script src=\"a.js\"><\\/script>');\n//--></script>",
 ];
 const P_K: usize = 4;
 
